@@ -43,6 +43,7 @@ import (
 	"context"
 	crand "crypto/rand"
 	"crypto/sha256"
+	"errors"
 	"fmt"
 	"io"
 	"math/rand"
@@ -561,6 +562,8 @@ func (m *mgr) audit() replay.Obs {
 	return obs
 }
 
+var errNotReturned = errors.New("Upload did not return within 30 s")
+
 type burstRes struct {
 	keys   []string // bare keys of the PUTs the endpoint saw
 	intact bool
@@ -580,17 +583,34 @@ func (m *mgr) burst(n int, payloads [][]byte, encs []string) burstRes {
 	m.mu.Unlock()
 	urls := make([]string, n)
 	errs := make([]error, n)
+	for i := range errs {
+		errs[i] = errNotReturned
+	}
+	var rmu sync.Mutex
 	var wg sync.WaitGroup
 	for g := 0; g < goroutines; g++ {
 		wg.Add(1)
 		go func() {
 			defer wg.Done()
 			for i := g; i < n; i += goroutines {
-				urls[i], errs[i] = st.Upload(payloads[i], nil, encs[i])
+				u, err := st.Upload(payloads[i], nil, encs[i])
+				rmu.Lock()
+				urls[i], errs[i] = u, err
+				rmu.Unlock()
 			}
 		}()
 	}
-	wg.Wait()
+	// bounded: uploads that corrupt each other's request can leave one waiting for a body
+	// that never arrives; that is an observation (a failed upload), not a dead driver
+	finished := make(chan struct{})
+	go func() { wg.Wait(); close(finished) }()
+	select {
+	case <-finished:
+	case <-time.After(30 * time.Second):
+	}
+	rmu.Lock()
+	urls, errs = append([]string{}, urls...), append([]error{}, errs...)
+	rmu.Unlock()
 	m.mu.Lock()
 	defer m.mu.Unlock()
 	res := burstRes{intact: true}
